@@ -3,7 +3,7 @@
    the text, start <= end, on char boundaries) that never reports the model's own fuel error.
    Statements only; proofs in Proofs/ApiProofs.v. *)
 From FR Require Import Base Utf8 Api ApiProofs.
-From FR Require Import State Utf8Facts Chars Ast Analyze Sem SemSound Vm Compile Param ArrowA CompileCorrect KeepOut EndToEnd ApiVm.
+From FR Require Import State Utf8Facts Chars Ast Analyze Sem SemSound Vm Compile Param ArrowA CompileCorrect KeepOut EndToEnd ApiVm Parse ParseInv ParseIdx FromPattern.
 From Coq Require Import NArith Lia.
 
 
@@ -89,9 +89,30 @@ Theorem C08_vm_is_reference_iteration : forall cs bs e p, VmScope cs bs e p ->
   spans (collect (concat cs) (vsearch cs p ng max_st limit fuelv) n m_init) = spans (collect (concat cs) (rsearch cs e) n m_init).
 Proof. intros cs bs e p (W & Hl & Hc & Ho & Hr & Hk) ng max_st limit fuelv n Hne. eapply vm_find_iter_is_reference; eauto. apply bst_init. Qed.
 
+
+(* ---- from the PATTERN STRING: Regex::new(pattern)?.find_iter(text), for every pattern that is
+   valid UTF-8, parses, compiles to a VM program, has no conditional under an atomic cut (F-condleak)
+   and no \K under a look-behind (F-keepout-lb); every text that is valid UTF-8; every stack bound
+   and backtrack limit.  Nothing else is assumed. ---- *)
+Theorem C08_from_pattern_string :
+  forall (re : list nat), valid_text re ->
+  forall (e : expr) (st : pst), parse re = POk (e, st) ->
+  condok true e -> kok true e ->
+  forall (p : prog) (ng : nat), regex_new (bs_of st) e = inr (RFancy p ng) ->
+  forall cs : list (list nat), valid_chars cs -> (N.of_nat (length (concat cs)) < usize_max)%N ->
+  forall max_st limit fuelv,
+  (forall pos f, vsearch cs p ng max_st limit fuelv pos f <> SErr EFuel) ->
+  forall n,
+  chain (concat cs) 0 (collect (concat cs) (vsearch cs p ng max_st limit fuelv) n m_init) /\
+  (no_err (collect (concat cs) (vsearch cs p ng max_st limit fuelv) n m_init) ->
+   spans (collect (concat cs) (vsearch cs p ng max_st limit fuelv) n m_init) =
+   spans (collect (concat cs) (rsearch cs e) n m_init)).
+Proof. exact pattern_find_iter. Qed.
+
 Print Assumptions C08_sorted.
 Print Assumptions C08_terminates.
 Print Assumptions C08_step.
 Print Assumptions C08_fused_after_err.
 Print Assumptions C08_vm_sorted.
 Print Assumptions C08_vm_is_reference_iteration.
+Print Assumptions C08_from_pattern_string.
